@@ -1,9 +1,147 @@
+import GqlVerif.Model.Cache
 import GqlVerif.Driver.Loop
-open GqlVerif
+/-!
+Model driver for C08.  Requests:
+
+```
+(cache-run        (fs F*) (parse X*) (init (q "path"*) (s "path"*)) (calls C*))
+(cache-interleave (fs F*) (parse X*) (init (q "path"*) (s "path"*)) (threads (C*)*) <seed>)
+(path-info "path")
+  F = (file "path" "cid")                      -- every path not listed does not exist
+  X = ("cid" <parses as query> <loads as SDL> <loads as introspection JSON>)   -- true | false
+  C = (file "query path" "schema path" "opt") | (string "cid" "schema path" "opt")
+```
+
+File contents travel as content ids; what the external parsers say about a content is the `parse`
+table (the parsers are parameters of the model).  `init` lists the keys the process-wide caches
+already hold from earlier histories of the same process (the model state is rebuilt by looking them
+up, i.e. by the model's own `getSet`).  The pure generator is left symbolic: the reply says *which*
+(query content, schema content, schema format, options) the result is the generator's value of.
+
+Replies: `(outcomes O*) (state (q "path"*) (s "path"*))` resp. `(threads (O*)*) (steps n) (lost-races n)`,
+`O = (gen "qcid" "scid" sdl|json "opt") | (panic "msg") | (err "msg") | (other "msg")`.
+-/
+open GqlVerif GqlVerif.Cache
+
+abbrev DR := String × String × String × String      -- (query cid, schema cid, format, options)
+abbrev DSys := Sys Path Path (String × Unit) (String × String) String DR
+
+structure World where
+  files : List (String × String)
+  flags : List (String × Bool × Bool × Bool)
+
+def World.flagsOf (w : World) (cid : String) : Bool × Bool × Bool :=
+  (w.flags.lookup cid).getD (false, false, false)
+
+def World.ext (w : World) : Ext Unit (String × String) String DR where
+  parseQuery t := if (w.flagsOf t).1 then .ok () else .error "parse error"
+  loadSdl t := if (w.flagsOf t).2.1 then .ok (t, "sdl") else panic' "called `Result::unwrap()` on an `Err` value: Parser error"
+  loadJson t := if (w.flagsOf t).2.2 then .ok (t, "json") else panic' "called `Result::unwrap()` on an `Err` value: serde_json"
+  generate q s o := .ok (q.1, s.1, s.2, o)
+
+def World.fs (w : World) : Fs := fun p => w.files.lookup (String.ofList p)
+
+def World.sys (w : World) : DSys := rustSys w.ext w.fs
+
+def decodeBool : Sexp → Option Bool
+  | .atom "true" => some true
+  | .atom "false" => some false
+  | _ => none
+
+def decodeWorld (fs parse : List Sexp) : Option World := do
+  let files ← fs.mapM fun
+    | .list [.atom "file", .str p, .str cid] => some (p, cid)
+    | _ => none
+  let flags ← parse.mapM fun
+    | .list [.str cid, a, b, c] => do pure (cid, ← decodeBool a, ← decodeBool b, ← decodeBool c)
+    | _ => none
+  pure { files, flags }
+
+def decodeCall : Sexp → Option (Call Path String)
+  | .list [.atom "file", .str q, .str s, .str o] => some (.fromFile q.toList s.toList o)
+  | .list [.atom "string", .str t, .str s, .str o] => some (.fromString t s.toList o)
+  | _ => none
+
+def decodePaths : Sexp → Option (List Path)
+  | .list (.atom _ :: ps) => ps.mapM fun | .str p => some p.toList | _ => none
+  | _ => none
+
+/-- the cache state of a process that has already (successfully or not) looked these paths up -/
+def warm (S : DSys) (qs ss : List Path) : CacheState Path (String × Unit) (String × String) :=
+  let q := qs.foldl (fun m p => (getSet m (S.key p) (S.loadQ p)).1) []
+  let s := ss.foldl (fun m p => (getSet m (S.key p) (S.loadS p)).1) []
+  { q, s }
+
+def outcomeSexp : Outcome DR → Sexp
+  | .ok (q, s, f, o) => .list [.atom "gen", .str q, .str s, .atom f, .str o]
+  | .error (.panic m) => .list [.atom "panic", .str m]
+  | .error (.error m) => .list [.atom "err", .str m]
+  | .error (.diverge m) => .list [.atom "other", .str m]
+  | .error (.unmodelled m) => .list [.atom "other", .str m]
+
+def stateSexp (c : CacheState Path (String × Unit) (String × String)) : Sexp :=
+  .list [.atom "state",
+    .list (.atom "q" :: c.q.reverse.map fun (k, _) => .str (String.ofList k)),
+    .list (.atom "s" :: c.s.reverse.map fun (k, _) => .str (String.ofList k))]
+
+def lcg (x : Nat) : Nat := (x * 6364136223846793005 + 1442695040888963407) % 18446744073709551616
+
+/-- is thread `t` about to lose an insertion race (its key was inserted by someone else meanwhile)? -/
+def losesRace (S : DSys) (c : CacheState Path (String × Unit) (String × String))
+    (t : Thread Path (String × Unit) (String × String) String DR) : Bool :=
+  match t.cur with
+  | some (.insertQ (.fromFile qp _ _) _) => (find c.q (S.key qp)).isSome
+  | some (.insertS call _ _) => (find c.s (S.key call.spath)).isSome
+  | _ => false
+
+/-- a pseudo-random schedule: at each step one of the unfinished threads, until all have finished -/
+def randomExec (S : DSys) : Nat → Nat → Config Path Path (String × Unit) (String × String) String DR → Nat → Nat →
+    Config Path Path (String × Unit) (String × String) String DR × Nat × Nat
+  | 0, _, cfg, steps, lost => (cfg, steps, lost)
+  | fuel + 1, rnd, cfg, steps, lost =>
+    let live := (List.range cfg.threads.length).filter fun i =>
+      match cfg.threads[i]? with | some t => !t.finished | none => false
+    match live with
+    | [] => (cfg, steps, lost)
+    | _ =>
+      let rnd' := lcg rnd
+      let i := live[(rnd' / 65536) % live.length]!
+      let lose := match cfg.threads[i]? with | some t => losesRace S cfg.cache t | none => false
+      randomExec S fuel rnd' (cfg.stepAt S i) (steps + 1) (if lose then lost + 1 else lost)
+
+def bad (what : String) : Sexp := .list [.atom "bad-request", .str what]
 
 def handle (req : Sexp) : Sexp :=
   match req with
   | .list (.atom "echo" :: xs) => .list (.atom "echo" :: xs)
-  | _ => .list [.atom "bad-request", .str "unknown request"]
+  | .list [.atom "path-info", .str p] =>
+    .list [.atom "path-info",
+      .list ((components p.toList).map fun c => .str (String.ofList c)),
+      (match extension p.toList with | some e => .list [.str (String.ofList e)] | none => .list []),
+      .atom (match schemaFormat p.toList with | .sdl => "sdl" | .json => "json" | .unsupported => "unsupported")]
+  | .list [.atom "cache-run", .list (.atom "fs" :: fs), .list (.atom "parse" :: parse),
+           .list [.atom "init", iq, is], .list (.atom "calls" :: calls)] =>
+    match decodeWorld fs parse, decodePaths iq, decodePaths is, calls.mapM decodeCall with
+    | some w, some iq, some is, some calls =>
+      let S := w.sys
+      let r := run S (warm S iq is) calls
+      .list [.list (.atom "outcomes" :: r.2.map outcomeSexp), stateSexp r.1]
+    | _, _, _, _ => bad "cache-run"
+  | .list [.atom "cache-interleave", .list (.atom "fs" :: fs), .list (.atom "parse" :: parse),
+           .list [.atom "init", iq, is], .list (.atom "threads" :: threads), seed] =>
+    match decodeWorld fs parse, decodePaths iq, decodePaths is,
+          threads.mapM (fun t => match t with | .list cs => cs.mapM decodeCall | _ => none), seed.asNat? with
+    | some w, some iq, some is, some progs, some seed =>
+      let S := w.sys
+      let cfg0 : Config Path Path (String × Unit) (String × String) String DR :=
+        { cache := warm S iq is, threads := progs.map Thread.ofProg }
+      let total := (progs.map List.length).foldl (· + ·) 0
+      let (cfg, steps, lost) := randomExec S (8 * total + 8) seed cfg0 0 0
+      .list [.list (.atom "threads" :: cfg.threads.map fun t => .list (t.done.map outcomeSexp)),
+             .list [.atom "finished", Sexp.mkBool (cfg.threads.all (·.finished))],
+             .list [.atom "steps", Sexp.mkNat steps], .list [.atom "lost-races", Sexp.mkNat lost],
+             stateSexp cfg.cache]
+    | _, _, _, _, _ => bad "cache-interleave"
+  | _ => bad "unknown request"
 
 def main : IO Unit := runLoop handle
